@@ -50,8 +50,12 @@ UseBad(s, d) ==
   /\ Log(s, [op |-> "use-db", d |-> d, tok |-> "bad", u |-> "-"])
   /\ UNCHANGED <<sel, impl, dev>>
 
-Close(s) ==
-  /\ Log(s, [op |-> "close"])
+(* how a connection ends: the client's orderly close, after bytes that are not a command line, reset by the *)
+(* peer with answers unread, or dropped without a close -- the session is gone in every case                 *)
+Hows == {"clean", "badline", "rst", "drop"}
+
+Close(s, how) ==
+  /\ Log(s, [op |-> "close", how |-> how])
   /\ sel' = [sel EXCEPT ![s] = "-"]
   /\ impl' = IF sel[s] = "-" THEN impl ELSE [impl EXCEPT ![sel[s]] = @ - 1]
   /\ UNCHANGED dev
@@ -64,7 +68,7 @@ ReadCount(s, d) ==
 Next ==
   /\ Len(hist) < MaxLen
   /\ \/ \E s \in Sessions, d \in Dbs : UseGood(s, d) \/ UseBad(s, d) \/ ReadCount(s, d)
-     \/ \E s \in Sessions : UseUser(s) \/ Close(s)
+     \/ \E s \in Sessions : UseUser(s) \/ \E how \in Hows : Close(s, how)
 
 Spec == Init /\ [][Next]_vars
 
